@@ -11,7 +11,8 @@ EXPLANATION = (
     'self.minimum / self.maximum and treats MIN/MAX as unbounded; (R2) the checker dispatch passes *get_size_range() to exactly the '
     'size-constrainable kinds and get_permitted_alphabet() to every string kind, and applies restricted-to in the tail; (R3) '
     'Specification.encode/decode/decode_with_length each pass through check_constraints under `if check_constraints` before the value is '
-    'encoded / after it is decoded (must-pass-through); (R4) an extension marker leaves the type unconstrained; (R5) bounds are resolved only '
+    'encoded / after it is decoded (must-pass-through); (R4) an extension marker leaves the type unconstrained; (R8) set_range / is_in_range evaluated on boundary '
+    'values admit exactly the effective range, for fresh types and for subtypes (MIN / MAX = the bounds of the parent) of constrained parents; (R5) bounds are resolved only '
     'through Compiler.get_size_range/get_restricted_to_range (value references, named numbers); (R6) every constraint key consumed on the '
     'inline path is also consumed for type references; (R7) a compiled object is configured only when owned (copy discipline).  '
     'Not decided: the iff for all values; REAL/ENUMERATED constraints (ignored by design).')
@@ -346,6 +347,47 @@ def check(ctx):
     ctx.instance('C11.R4', 'Type.set_range returns first when extensible', 'ok' if ok else 'VIOLATION', node=f, file=CC)
     if not ok:
         ctx.violation('C11.R4', CC, f, 'constraints_checker.Type.set_range', 'an extensible constraint must leave the type unconstrained: `if has_extension_marker: return` must be the first statement', stmt='extensible early return')
+
+    # ---- R8: the range a checker object ends up with, by bounded evaluation of Type.__init__ / set_range / is_in_range (sa/evalexpr.py): a fresh type, and a
+    #      subtype of an already constrained parent -- the compilers apply the subtype's range to a copy of the parent's object, and MIN / MAX in the subtype
+    #      denote the parent's bounds (X.680 51.4), so the admitted values are those of the intersection
+    ctx.rule('C11.R8', 'set_range / is_in_range admit exactly the effective range, for a fresh type and for a subtype (with MIN / MAX) of a constrained parent')
+    from .. import evalexpr
+    f_init, f_sr, f_in = typ.methods['__init__'], typ.methods['set_range'], typ.methods['is_in_range']
+    n8 = 0
+    bad8 = und8 = None
+    CASES8 = [(None, (0, 255)), (None, (5, 'MAX')), (None, ('MIN', 5)), (None, ('MIN', 'MAX')), (None, (None, None)), ((0, 255), (200, 'MAX')), ((0, 255), ('MIN', 100)),
+              ((0, 255), (10, 20)), ((5, 'MAX'), ('MIN', 100)), (('MIN', 100), (0, 'MAX')), ((0, 255), ('MIN', 'MAX')), ((-10, 10), (0, 'MAX'))]
+    for parent, (lo, hi) in CASES8:
+        try:
+            _r, env = evalexpr.run_function(f_init, {flow.param_names(f_init)[1]: 'x'}, skip_calls=True)
+            sp = flow.param_names(f_sr)[1:]
+            for rng in ([parent] if parent else []) + [(lo, hi)]:
+                env = {k: v_ for k, v_ in env.items() if isinstance(k, str) and k.startswith('self.')}
+                env.update(dict(zip(sp, (rng[0], rng[1], False))))
+                _r, env = evalexpr.run_function(f_sr, env)
+            cfg = {k: v_ for k, v_ in env.items() if isinstance(k, str) and k.startswith('self.')}
+            elo = (parent[0] if parent else 'MIN') if lo in ('MIN', None) else lo
+            ehi = (parent[1] if parent else 'MAX') if hi in ('MAX', None) else hi
+            probes = set()
+            for b in (elo, ehi, parent[0] if parent else 0, parent[1] if parent else 0):
+                if isinstance(b, int):
+                    probes.update({b - 1, b, b + 1})
+            probes.update({-10 ** 6, 0, 10 ** 6})
+            for v in sorted(probes):
+                e2 = dict(cfg)
+                e2[flow.param_names(f_in)[1]] = v
+                got, _e = evalexpr.run_function(f_in, e2)
+                want = (elo == 'MIN' or v >= elo) and (ehi == 'MAX' or v <= ehi)
+                n8 += 1
+                if bool(got) != want and bad8 is None:
+                    what = ('(%s..%s)' % (lo, hi)) if parent is None else 'A ::= (%s..%s), B ::= A (%s..%s): for B' % (parent[0], parent[1], lo, hi)
+                    bad8 = '%s the value %d is %s, the constraint %s it (effective range %s..%s)' % (what, v, 'admitted' if got else 'rejected', 'excludes' if not want else 'admits', elo, ehi)
+        except (evalexpr.Unsupported, KeyError, TypeError) as e:
+            und8 = und8 or '%s / %s: %s' % (parent, (lo, hi), e)
+    ctx.instance('C11.R8', 'Type.set_range / is_in_range: %d (range, value) cases evaluated' % n8, 'VIOLATION' if bad8 else ('ok' if n8 else 'undecided'), und8 or '', nontrivial=n8 > 0, node=f_sr, file=CC)
+    if bad8:
+        ctx.violation('C11.R8', CC, f_sr, 'constraints_checker.Type.set_range', bad8, stmt='effective range')
 
     # ---- R5: no private bound resolution in the checker (no type_descriptor['size'] / ['restricted-to'] subscripts outside the base helpers)
     n5 = 0
